@@ -861,3 +861,20 @@ package engine
 //@   onk[nothing-else] forall n Atom, c operatorClass ::
 //@       (c != cls(local(spec, operatorSpecifier)) || forall j int :: 0 <= j && j < len(local(names, []Atom)) ==> local(names, []Atom)[j] != n) ==>
 //@       vm.operators[n][c] == old(vm.operators[n][c])
+
+//@ ---------------------------------------------------------------- streams (C19)
+
+//@ func PeekChar
+//@   property C19
+//@   requires vm != nil
+//@   nosafety
+
+//@ func PeekByte
+//@   property C19
+//@   requires vm != nil
+//@   nosafety
+
+//@ func ReadTerm
+//@   property C19
+//@   requires vm != nil
+//@   nosafety
